@@ -24,6 +24,11 @@ def ghost_env(it, thrower=None):
             if thrower is not None:
                 thrower(last, args[0])
             key = 'ghost_' + last
+            extra = args[1:]
+            if extra and all(is_sym(a) or isinstance(a, (int, float)) or hasattr(a, 'numerator') for a in extra):
+                # an overload that takes further numeric arguments is a FUNCTION of them (not the same value as the one-argument API function)
+                f = z3.Function('%s_%d' % (key, len(extra)), *([z3.RealSort()] * (len(extra) + 1)))
+                return f(*[z3real(a) for a in extra])
             seen.setdefault(key, z3.Real(key))
             return seen[key]
         return NotImplemented
@@ -110,7 +115,53 @@ def _(ctx):
                 ctx.prove('%s.loop%d.resum%d' % (cls, lo, resum), sym.pc, z3real(r) == want, check_vacuity=False)
                 ctx.merge_rules(it)
 
-@obligation('C15.dispatch.calculate_uncertainty', fns=[(MAIN, 'calculate_uncertainty')])
+DISPATCH_REPLAY = r'''
+#define main gm2calc_program_main
+#include "@REPO@/src/gm2calc.cpp"
+#undef main
+#include "gm2calc/gm2_uncertainty.hpp"
+#include <cstdio>
+#include <cmath>
+// the dispatch functions of the REAL src/gm2calc.cpp (reachable here because the file is included) against the public library API, on the shipped examples
+static int bad = 0;
+static void cmp(const char* what, unsigned lo, double got, double want) {
+   const bool ok = (got == want) || std::fabs(got - want) <= 1e-14 * std::fabs(want);
+   if (!ok) { bad++; std::printf("MISMATCH %s loop order %u: program value %.10e, library API %.10e\\n", what, lo, got, want); }
+}
+int main() {
+   for (unsigned lo = 0; lo <= 2; lo++) {
+      gm2calc::Config_options o; o.loop_order = lo; o.calculate_uncertainty = true;
+      {
+         gm2calc::GM2_slha_io io; io.read_from_source("@REPO@/input/example.thdm");
+         const gm2calc::THDM m = THDM_reader()(io, o);
+         const double want_u = lo == 0 ? gm2calc::calculate_uncertainty_amu_0loop(m) : lo == 1 ? gm2calc::calculate_uncertainty_amu_1loop(m) : gm2calc::calculate_uncertainty_amu_2loop(m);
+         const double want_a = (lo > 0 ? gm2calc::calculate_amu_1loop(m) : 0.) + (lo > 1 ? gm2calc::calculate_amu_2loop(m) : 0.);
+         cmp("THDM uncertainty", lo, calculate_uncertainty(m, o), want_u);
+         cmp("THDM amu", lo, calculate_amu(m, o), want_a);
+      }
+      {
+         gm2calc::GM2_slha_io io; io.read_from_source("@REPO@/input/example.gm2");
+         gm2calc::MSSMNoFV_onshell m; GM2Calc_reader()(m, io);
+         const double want_u = lo == 0 ? gm2calc::calculate_uncertainty_amu_0loop(m) : lo == 1 ? gm2calc::calculate_uncertainty_amu_1loop(m) : gm2calc::calculate_uncertainty_amu_2loop(m);
+         const double want_a = (lo > 0 ? gm2calc::calculate_amu_1loop(m) : 0.) + (lo > 1 ? gm2calc::calculate_amu_2loop(m) : 0.);
+         cmp("MSSM uncertainty", lo, calculate_uncertainty(m, o), want_u);
+         cmp("MSSM amu", lo, calculate_amu(m, o), want_a);
+      }
+   }
+   std::printf("%d mismatches between the program's dispatch and the library API\\n", bad);
+   return bad ? 1 : 0;
+}
+'''
+
+def dispatch_replay(model, wd):
+    from gm2v import native
+    from gm2v.world import REPO
+    import subprocess
+    exe = native.build_against_library(wd, DISPATCH_REPLAY.replace('@REPO@', REPO))
+    r = subprocess.run([exe], capture_output=True, text=True, timeout=300)
+    return r.returncode == 1, r.stdout.strip()[-1500:]
+
+@obligation('C15.dispatch.calculate_uncertainty', fns=[(MAIN, 'calculate_uncertainty')], replay=dispatch_replay)
 def _(ctx):
     """calculate_uncertainty(model, options) == calculate_uncertainty_amu_<loop order>loop(model) for loop order 0, 1, 2"""
     for cls in ('MSSMNoFV_onshell', 'THDM'):
@@ -122,7 +173,17 @@ def _(ctx):
             # signaling_NaN initial value is overwritten on every handled path
             it.stubs['std::numeric_limits<>::signaling_NaN'] = lambda i, a, t: z3.Real('nan_placeholder')
             sym, r, exc = it.run_paths(lambda: it.call('calculate_uncertainty', [m, o], file=MAIN))[0]
-            ctx.prove('%s.loop%d' % (cls, lo), sym.pc, z3real(r) == z3.Real('ghost_calculate_uncertainty_amu_%dloop' % lo), check_vacuity=False)
+            # callee contract (C18.*.overloads): the overloads given the a_mu values the library computes agree with the one-argument API functions
+            G = lambda n: z3.Real('ghost_' + n)
+            a1, a2 = G('calculate_amu_1loop'), G('calculate_amu_2loop')
+            agree = []
+            for lo_ in (0, 1, 2):
+                nm = 'ghost_calculate_uncertainty_amu_%dloop' % lo_
+                agree.append(z3.Function(nm + '_2', z3.RealSort(), z3.RealSort(), z3.RealSort())(a1, a2) == z3.Real(nm))
+            agree.append(z3.Function('ghost_calculate_uncertainty_amu_0loop_1', z3.RealSort(), z3.RealSort())(a1) == z3.Real('ghost_calculate_uncertainty_amu_0loop'))
+            agree.append(z3.Function('ghost_calculate_uncertainty_amu_1loop_1', z3.RealSort(), z3.RealSort())(a2) == z3.Real('ghost_calculate_uncertainty_amu_1loop'))
+            ctx.assume_note('callee contract (C18.*.overloads): calculate_uncertainty_amu_Nloop(model, a1L, a2L) with the library\'s own a1L, a2L equals calculate_uncertainty_amu_Nloop(model)')
+            ctx.prove('%s.loop%d' % (cls, lo), list(sym.pc) + agree, z3real(r) == z3.Real('ghost_calculate_uncertainty_amu_%dloop' % lo), check_vacuity=False)
             ctx.merge_rules(it)
 
 # ---------------------------------------------------------------------------------------------------
